@@ -3723,7 +3723,7 @@ func (d *cborDecDriverBytes) decTagBigIntAsFloat(neg bool) (f float64) {
 }
 
 func (d *cborDecDriverBytes) decTagBigFloatAsFloat(decimal bool) (f float64) {
-	if nn := d.r.readn1(); nn != 82 {
+	if nn := d.r.readn1(); nn != 0x82 {
 		halt.errorf("(%d) decoding decimal/big.Float: expected 2 numbers", nn)
 	}
 	exp := d.DecodeInt64()
@@ -7737,7 +7737,7 @@ func (d *cborDecDriverIO) decTagBigIntAsFloat(neg bool) (f float64) {
 }
 
 func (d *cborDecDriverIO) decTagBigFloatAsFloat(decimal bool) (f float64) {
-	if nn := d.r.readn1(); nn != 82 {
+	if nn := d.r.readn1(); nn != 0x82 {
 		halt.errorf("(%d) decoding decimal/big.Float: expected 2 numbers", nn)
 	}
 	exp := d.DecodeInt64()
